@@ -439,7 +439,7 @@ fn case2<T: Elem>(case: u64, args: &Args, ev: &mut Ev, log: &mut EventLog) {
 
 fn main() {
     let args = Args::parse("C15");
-    let n = args.budget(900, 60000);
+    let n = args.budget(900, 100000);
     let mut args_main = args.clone();
     if args.only.map_or(false, |o| o >= 10_000_000) {
         args_main.only = Some(u64::MAX);
@@ -459,7 +459,7 @@ fn main() {
         }
     });
     // a large number of cheap small-spline scale checks
-    let n_small = args.budget(600000, 4000000);
+    let n_small = args.budget(600000, 10000000);
     let mut args_small = args.clone();
     if let Some(o) = args.only {
         args_small.only = if o >= 10_000_000 { Some(o - 10_000_000) } else { None };
